@@ -53,7 +53,9 @@ struct LaneRef {
     linked: bool,            // protocol level (after Linked pushed, until Unlinked pushed)
     session: u32,            // number of Linked pushes
     emitted_linked: bool,    // frame level
-    emitted_session: u32,    // number of Linked frames emitted
+    emitted_session: u32,    // number of Linked frames emitted (first of a session)
+    /// per session: link requests repeated on the open link whose `linked` answer is still owed
+    relinks: BTreeMap<u32, u32>,
     /// bodies pushed per session
     pushes: BTreeMap<u32, Vec<String>>,
     /// per session: number of pushes matched / delivered so far (supply: exact; value: the
@@ -109,6 +111,12 @@ impl USim {
             if self.lanes[l as usize].linked {
                 v.push(UOp::Unlinked(l));
                 v.push(UOp::Synced(l));
+                // a link request repeated on the open link (answered by another `linked`), at most
+                // one outstanding per session
+                let r = &self.lanes[l as usize];
+                if r.relinks.get(&r.session).cloned().unwrap_or(0) == 0 {
+                    v.push(UOp::Linked(l));
+                }
             } else {
                 v.push(UOp::Linked(l));
             }
@@ -154,10 +162,15 @@ impl USim {
         match kind {
             FK::Linked => {
                 if r.emitted_linked {
-                    return Err(format!("law=link_state_machine lane-kind={}: linked emitted while already linked", kname));
+                    let owed = r.relinks.entry(r.emitted_session).or_insert(0);
+                    if *owed == 0 {
+                        return Err(format!("law=link_state_machine lane-kind={}: linked emitted while already linked (no repeated link request)", kname));
+                    }
+                    *owed -= 1;
+                } else {
+                    r.emitted_linked = true;
+                    r.emitted_session += 1;
                 }
-                r.emitted_linked = true;
-                r.emitted_session += 1;
             }
             FK::Unlinked => {
                 if !r.emitted_linked {
@@ -283,8 +296,12 @@ impl USim {
         let task: Option<WriteTask> = match op {
             UOp::Linked(l) => {
                 let r = &mut self.lanes[*l as usize];
-                r.linked = true;
-                r.session += 1;
+                if r.linked {
+                    *r.relinks.entry(r.session).or_insert(0) += 1;
+                } else {
+                    r.linked = true;
+                    r.session += 1;
+                }
                 self.uplinks.push_special(SpecialAction::Linked(*l as u64), &self.registry)
             }
             UOp::Unlinked(l) => {
@@ -401,7 +418,7 @@ impl USim {
                 let from = r.possible.get(&sess).and_then(|v| v.iter().min().cloned()).map(|x| x + 1).unwrap_or(0).min(m).min(p.len());
                 format!("{:?}/{:?}/{:?}/{:?}/{:?}", &p[from..], poss, marks, r.map_truth.get(&sess), r.map_replica.get(&sess))
             };
-            s.push_str(&format!("[{}{}{}:{};{}]", r.linked, r.emitted_linked, n - en, pend(n), if en != n { pend(en) } else { String::new() }));
+            s.push_str(&format!("[{}{}{}:{};{};r{}/{}]", r.linked, r.emitted_linked, n - en, pend(n), if en != n { pend(en) } else { String::new() }, r.relinks.get(&n).cloned().unwrap_or(0), if en != n { r.relinks.get(&en).cloned().unwrap_or(0) } else { 0 }));
         }
         s
     }
